@@ -18,7 +18,8 @@ def key_of(r):
 def run(tier, seed):
     rep = core.Report(PROP, tier, seed)
     rep.rule = ("expansion-only corpus (token-soup fn/mod/impl inputs + realistic fn/mod cases, biased to many non-identifier "
-                "parameters, entraited traits with every delegation option); every source is instantiated 2-5 times in different files at different line / column offsets; the workspace is built k times "
+                "parameters, entraited traits with every delegation option, and a family over a four-name vocabulary in which the trait one "
+                "invocation generates is the bound / supertrait / target another one mentions, with and without ?Send and the mock options); every source is instantiated 2-5 times in different files at different line / column offsets; the workspace is built k times "
                 "with shuffled shard/module order and perturbed environment; records grouped by (variant, attr, input) must "
                 "agree on the output tokens (spacing included). non-trivial = group with >= 3 observations from >= 2 processes")
     n = 500 if tier == "quick" else 2500
@@ -51,6 +52,38 @@ def run(tier, seed):
         t = gtraits.random_trait(rng, "Subj", with_async_trait=rng.random() < 0.2)
         src = "#[::entrait::%s(%s)] /*@inv*/\n%s\n" % (rng.choice(["entrait", "entrait_export"]), rng.choice(TRAIT_ATTRS), t.source())
         base.append(core.Case("t_%05d" % i, src, run=False, expect="expand"))
+    # a tiny shared vocabulary of trait / fn / type names: what one invocation generates is what another one mentions in its
+    # bounds, so that a memo, registry or counter keyed on names would make an expansion depend on the ones before it
+    VOC = ["Alpha", "Beta", "Gamma", "Delta"]
+    OPTS = ["", "", "?Send", "?Send", "no_deps", "mock_api = M", "unimock", "mockall", "export", "box_future", "delegate_by = ref",
+            "unimock = false", "?Send, mock_api = M"]
+    for i in range(n // 2):
+        name = rng.choice(VOC)
+        bounds = rng.sample(VOC, rng.randint(0, 3))
+        opt = rng.choice(OPTS)
+        asy = "async " if rng.random() < 0.6 else ""
+        kind = rng.choice(["fn", "fn", "fn", "mod", "trait", "impl"])
+        dep = "deps: &(impl %s)" % " + ".join(bounds) if bounds and rng.random() < 0.5 else \
+            ("deps: &D" if bounds else "deps: &impl ::core::marker::Sized")
+        gen = "<D: %s>" % " + ".join(bounds) if dep == "deps: &D" else ""
+        if "no_deps" in opt:
+            dep, gen = "x: %s" % rng.choice(VOC), ""
+        fname = name.lower()
+        if kind == "fn":
+            src = "#[::entrait::entrait(%s%s)] /*@inv*/\n%sfn %s%s(%s, v: i32) -> i32 { v }\n" % (
+                rng.choice(["", "pub "]) + name, ", " + opt if opt else "", asy, fname, gen, dep)
+        elif kind == "mod":
+            src = "#[::entrait::entrait(%s%s)] /*@inv*/\nmod %s { pub %sfn %s%s(%s, v: i32) -> i32 { v } pub fn other%s(%s) {} }\n" % (
+                name, ", " + opt if opt else "", fname, asy, fname, gen, dep, gen, dep)
+        elif kind == "trait":
+            topt = rng.choice(["", "?Send", "delegate_by = ref", "%sImpl, delegate_by = Delegate%s" % (name, name), "mock_api = M", "delegate_by = %s" % rng.choice(VOC)])
+            src = "#[::entrait::entrait(%s)] /*@inv*/\ntrait %s%s { %sfn %s(&self, v: i32) -> i32; }\n" % (
+                topt, name, ": " + " + ".join(bounds) if bounds else "", asy, fname)
+        else:
+            iopt = rng.choice(["", "?Send", "ref", "dyn", "?Send, ref"])
+            src = "#[::entrait::entrait(%s)] /*@inv*/\nimpl %s%s for %s { %sfn %s%s(%s, v: i32) -> i32 { v } }\n" % (
+                iopt, name, "Impl" if rng.random() < 0.5 else "", rng.choice(VOC), "pub " + asy, fname, gen, dep)
+        base.append(core.Case("h_%05d" % i, src, run=False, expect="expand"))
     groups = {}
     total_records = 0
     procs = set()
